@@ -198,26 +198,30 @@ func runC10(c *core.Ctx) {
 	if lookup != nil {
 		lookupReturns = returnsOf(lookup)
 	}
-	for _, r := range lookupReturns {
-		v := facts.RetVal(r, 0)
-		if facts.IsNilConst(v) {
-			continue
-		}
-		nRet++
-		ok := false
-		for _, cd := range facts.CondsAt(r.Block()) {
-			call, isCall := cd.V.(*ssa.Call)
-			if !isCall || !cd.Pos || call.Call.StaticCallee() == nil || call.Call.StaticCallee().Name() != "Contains" {
+	_ = lookupReturns
+	if lookup != nil {
+		for _, vr := range virtualReturns(lookup) {
+			r := vr.Ret
+			v := facts.Resolve(vr.Vals[0])
+			if facts.IsNilConst(v) {
 				continue
 			}
-			a := call.Call.Args
-			// receiver: scope field of the returned token; argument: the requested scope parameter
-			b, fld, isF := facts.FieldOf(facts.Resolve(a[0]))
-			if isF && fld == "scope" && facts.Resolve(b) == v && argIsParam(a[1], lookup, 1) {
-				ok = true
+			nRet++
+			ok := false
+			for _, cd := range vr.Conds {
+				call, isCall := cd.V.(*ssa.Call)
+				if !isCall || !cd.Pos || call.Call.StaticCallee() == nil || call.Call.StaticCallee().Name() != "Contains" {
+					continue
+				}
+				a := call.Call.Args
+				// receiver: scope field of the returned token; argument: the requested scope parameter
+				b, fld, isF := facts.FieldOf(facts.Resolve(a[0]))
+				if isF && fld == "scope" && (facts.Resolve(b) == v || facts.Term(facts.Resolve(b)) == facts.Term(v)) && argIsParam(a[1], lookup, 1) {
+					ok = true
+				}
 			}
+			c.Check(ok, "C10.R2", "accessTokenForScope/contains-guard", r.Pos(), "a cached token is returned only if its scope contains the requested scope", "a cached token is returned on a path where `token.scope.Contains(requested)` is not established (or the containment is tested the wrong way round): a token that does not cover the request's required scope is reused")
 		}
-		c.Check(ok, "C10.R2", "accessTokenForScope/contains-guard", r.Pos(), "a cached token is returned only if its scope contains the requested scope", "a cached token is returned on a path where `token.scope.Contains(requested)` is not established (or the containment is tested the wrong way round): a token that does not cover the request's required scope is reused")
 	}
 	if lookup != nil && nRet == 0 {
 		c.Fail("C10.R2", "accessTokenForScope/contains-guard", lookup.Pos(), "the cache lookup never returns a token")
